@@ -188,6 +188,7 @@ def gen_graph(rng, nmin=2, nmax=6, names=True):
                 break
         if kmin is not None and kmin < len(scn["edges"]):
             scn["warmup"] = rng.randint(kmin, len(scn["edges"]) - 1)
+            scn["warm_single"] = rng.random() < 0.5
     return scn, E
 
 
